@@ -176,6 +176,12 @@ func (c *Child) Send(v interface{}) error {
 	return err
 }
 
+// SendLine writes one raw line to the child's stdin.
+func (c *Child) SendLine(l string) error {
+	_, err := c.stdin.Write([]byte(l + "\n"))
+	return err
+}
+
 // ErrTimeout is returned by Recv when the watchdog expires.
 var ErrTimeout = fmt.Errorf("timeout waiting for child")
 
@@ -259,6 +265,43 @@ func (c *Child) Stderr() string { return c.errBuf.String() }
 
 // Pid returns the pid of the started process (strace when tracing).
 func (c *Child) Pid() int { return c.cmd.Process.Pid }
+
+// AttachInject attaches strace to the running process pid (all threads, -f) and
+// SIGKILLs it on entry to the when-th syscall of the set made by one thread
+// (counted from the moment of attaching). The returned function waits for
+// strace to exit (it exits when the tracee is gone) and must be called after
+// the child has died or been killed.
+func AttachInject(pid int, set string, when int, log string) (wait func(), err error) {
+	cmd := exec.Command("strace", "-f", "-p", fmt.Sprint(pid), "-e", "trace="+set, "-e", "signal=none",
+		"-e", fmt.Sprintf("inject=%s:signal=KILL:when=%d", set, when), "-o", log)
+	cmd.SysProcAttr = &syscall.SysProcAttr{Setpgid: true}
+	var buf tailBuffer
+	cmd.Stderr = &buf
+	if err := cmd.Start(); err != nil {
+		return nil, err
+	}
+	done := make(chan struct{})
+	go func() { _ = cmd.Wait(); close(done) }()
+	// wait until strace reports that it attached (or gave up / the tracee died)
+	for i := 0; i < 500; i++ {
+		if strings.Contains(buf.String(), "attached") {
+			break
+		}
+		select {
+		case <-done:
+			i = 500
+		case <-time.After(10 * time.Millisecond):
+		}
+	}
+	return func() {
+		select {
+		case <-done:
+		case <-time.After(10 * time.Second):
+			_ = syscall.Kill(-cmd.Process.Pid, syscall.SIGKILL)
+			<-done
+		}
+	}, nil
+}
 
 // ---------------------------------------------------------------------------
 // strace log parsing
@@ -518,6 +561,7 @@ func unhex(c byte) int {
 
 // FdArg decodes "5</path>" or "AT_FDCWD</cwd>"; cwd reports the latter.
 func FdArg(a string) (path string, cwd bool, ok bool) {
+	a = strings.TrimSuffix(a, "(deleted)")
 	i := strings.IndexByte(a, '<')
 	if i < 0 || !strings.HasSuffix(a, ">") {
 		if a == "AT_FDCWD" {
